@@ -176,6 +176,9 @@ func lifecycleCauses(t *testing.T, h *H) {
 				})
 				s.OnEvent("burst", func(int) {})
 				s.Join("roomA", "roomB")
+				if !s.Connected() {
+					o.registeredLate = true // the close overtook (part of) the registrations above
+				}
 			})
 			m := r.manager(sc.trs, &sio.ManagerConfig{NoReconnection: true})
 			m.OnOpen(func() {})
@@ -302,7 +305,7 @@ func lifecycleCauses(t *testing.T, h *H) {
 			if !had {
 				continue
 			}
-			if o.registeredLate && len(o.disconnect) == 0 && len(o.disconnecting) == 0 {
+			if o.registeredLate && len(o.disconnect) <= 1 && len(o.disconnecting) <= 1 && len(o.disconnect)+len(o.disconnecting) < 2 {
 				h.Violation("C06", "a socket is handed to the connection handler after it was disconnected; handlers registered there never run", "the connection ends while a namespace middleware runs", desc+fmt.Sprintf(": socket %s", id))
 				continue
 			}
@@ -351,7 +354,7 @@ func lifecycleCauses(t *testing.T, h *H) {
 			case !nsLocal && sc.phase != "middleware":
 				sched = "D,T,C,F,S"
 			}
-			if sched != "" {
+			if sched != "" && !o.registeredLate {
 				h.Case("lc sched="+sched, fmt.Sprintf("connected=0 listed=%s inRoom=%s count=%d", b01(listedAfter > 0), b01(roomsAfter > 0), len(o.disconnect)))
 			}
 		}
